@@ -235,6 +235,39 @@ func init() {
 		}
 		return r
 	}
+	// ygot.BuildEmptyTree(s) (reflection walker, assumed): allocates the nil container pointers of s and of the
+	// containers below it, and touches nothing else: the struct-pointer fields of the struct types reachable from
+	// the static type of the argument are havocked (a field that was non-nil keeps its value), everything else -
+	// leaves, lists, maps - is unchanged.
+	libModels["github.com/openconfig/ygot/ygot.BuildEmptyTree"] = func(c *FnCtx, x *ast.CallExpr, fobj *types.Func, a []string, st *State) []string {
+		at := c.info().TypeOf(x.Args[0])
+		oldAlloc := c.alloc(st)
+		na := c.fresh("alloc", "(Array Int Bool)")
+		st.heap["alloc"] = na
+		c.monotoneAlloc(st, oldAlloc, na)
+		st.addDef(not(sel(na, "0")))
+		bases := c.subtreeBases(at)
+		for _, b := range sortedKeys(bases) {
+			ft := c.baseElem[b]
+			pt, ok := ft.Underlying().(*types.Pointer)
+			if !ok {
+				continue
+			}
+			if _, isStruct := pt.Elem().Underlying().(*types.Struct); !isStruct {
+				continue
+			}
+			old := c.h(st, b, bases[b])
+			c.heapSort[b] = bases[b]
+			n := c.fresh("hv_"+b, bases[b])
+			st.heap[b] = n
+			st.addDef("(forall ((r Int)) (! (=> (not (= (select " + old + " r) 0)) (= (select " + n + " r) (select " + old + " r))) :pattern ((select " + n + " r))))")
+			if ax := c.closureAxiom(n, b, na); ax != "" {
+				st.addDef(ax)
+			}
+		}
+		c.abstractions["ygot.BuildEmptyTree (library model: only nil struct-pointer fields of the argument's subtree change)"] = true
+		return nil
+	}
 	// CanSet / CanAddr / CanInterface: uninterpreted, but true only of a valid Value
 	for _, m := range []string{"CanSet", "CanAddr", "CanInterface"} {
 		m := m
